@@ -81,11 +81,20 @@ def run(ctx) -> None:
     if len(loops) != 1:
         raise AnalysisError("compute_input_spec: categorisation loop not found")
     lp = loops[0]
+    # the two lists that end up as InputSpec(required=..., optional=...)
+    fields = {}
+    for c in db.calls_in(cis):
+        if "InputSpec" in src(c.func):
+            for k in c.keywords:
+                if k.arg in ("required", "optional"):
+                    nm = [x.id for x in ast.walk(k.value) if isinstance(x, ast.Name) and x.id not in ("tuple", "list", "sorted")]
+                    if nm:
+                        fields[nm[0]] = k.arg
     apps = {}
     for n in cfg.nodes:
         for c in cfg.calls_at(n):
-            if isinstance(c.func, ast.Attribute) and c.func.attr == "append" and isinstance(c.func.value, ast.Name) and c.func.value.id in ("required", "optional") and contains(lp.ast, c):
-                apps.setdefault(c.func.value.id, []).append(n)
+            if isinstance(c.func, ast.Attribute) and c.func.attr == "append" and isinstance(c.func.value, ast.Name) and c.func.value.id in fields and contains(lp.ast, c):
+                apps.setdefault(fields[c.func.value.id], []).append(n)
     ok = set(apps) == {"required", "optional"}
     why = "required/optional appends not found"
     if ok:
@@ -113,8 +122,9 @@ def run(ctx) -> None:
             ok = False
     rep.add("C08.R3", f"{cis.qname}:entry-params-skipped", ok, f"{cis.module.rel}:{lp.lineno}", "entry-point parameters are skipped before categorisation" if ok else "an entry-point parameter can also be categorised as required/optional")
     up = db.func("graph.input_spec._unique_params")
-    t = src(up.node)
-    ok = "seen" in t and "not in seen" in t and "seen.add" in t and "yield" in t and src(lp.ast.iter).startswith("_unique_params(")
+    from sa.pattern import solve
+
+    ok = bool(solve(["_S: set[str] = set()", "_P not in _S", "_S.add(_P)", "yield _P"], up.node) or solve(["_S = set()", "_P not in _S", "_S.add(_P)", "yield _P"], up.node)) and src(lp.ast.iter).startswith("_unique_params(")
     rep.add("C08.R3", f"{up.qname}:visited-once", ok, up.loc(), "each parameter name is yielded once (seen-set) and the loop iterates that generator" if ok else "a parameter shared by several nodes can be visited more than once")
 
     # ---- R4 ---------------------------------------------------------------------
@@ -134,25 +144,33 @@ def run(ctx) -> None:
     vi = db.func("runners._shared.validation.validate_inputs")
     vcfg = ctx.cfg(vi)
     raises = [n for n in vcfg.nodes if n.kind == "stmt" and isinstance(n.ast, ast.Raise) and isinstance(n.ast.exc, ast.Call) and "MissingInputError" in src(n.ast.exc.func)]
-    tests = [n for n in vcfg.nodes if n.kind == "test" and "missing_required" in src(n.ast)]
+    # the missing set: a local defined as <something> - <provided>, whose emptiness is tested
+    miss_var = None
+    shape = False
+    for nm, ds in db.local_defs(vi).items():
+        for d in ds:
+            if isinstance(d, ast.Assign) and isinstance(d.value, ast.BinOp) and isinstance(d.value.op, ast.Sub) and isinstance(d.value.right, ast.Name):
+                # the subtrahend must be the key set of (bound ∪ values)
+                pdefs = [x for x in db.local_defs(vi).get(d.value.right.id, []) if isinstance(x, ast.Assign)]
+                if pdefs and any("keys()" in src(x.value) or "set(" in src(x.value) for x in pdefs) and any(isinstance(t_, ast.Name) and t_.id == nm for n_ in vcfg.nodes if n_.kind == "test" and n_.ast is not None for t_ in ast.walk(n_.ast)):
+                    if "required" in src(d.value.left) or any("required" in src(getattr(x, "value", x)) for x in db.local_defs(vi).get(getattr(d.value.left, "id", ""), [])):
+                        miss_var, shape = nm, True
+    tests = [n for n in vcfg.nodes if n.kind == "test" and miss_var is not None and any(isinstance(x, ast.Name) and x.id == miss_var for x in ast.walk(n.ast))]
     ok = bool(raises) and bool(tests)
     if ok:
-        live = reachable(tests[0], specialize({"missing_required": True}))
+        live = reachable(tests[0], specialize({miss_var: True}))
         ok = vcfg.exit_return not in live and any(r in live for r in raises)
-    # missing = required - bypassed - provided
-    defs = [d for d in db.local_defs(vi).get("missing_required", []) if isinstance(d, ast.Assign)]
-    shape = len(defs) == 1 and isinstance(defs[0].value, ast.BinOp) and isinstance(defs[0].value.op, ast.Sub) and src(defs[0].value.right) == "provided"
     rep.add("C08.R5", f"{vi.qname}:raises-when-missing", ok and shape, vi.loc(), "a non-empty 'required - provided' set always ends in raise MissingInputError" if ok and shape else "validate_inputs can return normally although a required input is missing")
     cce = db.func("runners._shared.validation._check_cycle_entry")
     ccfg = ctx.cfg(cce)
-    live = reachable(ccfg.entry, specialize({"len(satisfied) == 0": True}))
-    ok = any(n.kind == "stmt" and isinstance(n.ast, ast.Raise) and "MissingInputError" in src(n.ast) for n in live) and ccfg.exit_return not in {n for n in live if False}
-    t_nodes = [n for n in ccfg.nodes if n.kind == "test" and src(n.ast) == "len(satisfied) == 0"]
+    from sa.pattern import match
+
+    t_nodes = [n for n in ccfg.nodes if n.kind == "test" and (match("len(_S) == 0", n.ast) is not None or match("not _S", n.ast) is not None)]
+    ok = False
     if t_nodes:
         tgt = [x for x, l, _ in t_nodes[0].succ if l == "T"][0]
-        ok = ok and not reaches(tgt, ccfg.exit_return)
-    else:
-        ok = False
+        live = reachable(tgt)
+        ok = any(n.kind == "stmt" and isinstance(n.ast, ast.Raise) and "MissingInputError" in src(n.ast) for n in live) and not reaches(tgt, ccfg.exit_return)
     rep.add("C08.R5", f"{cce.qname}:raises-when-unsatisfied", ok, cce.loc(), "a cycle with no satisfied entry point always raises MissingInputError" if ok else "a cycle with no satisfied entry point is not reported as MissingInputError")
 
     # ---- R7 ---------------------------------------------------------------------
